@@ -203,6 +203,11 @@ func rep(t *rt.Thread, c *rt.GoCont) (rt.Cont, error) {
 		return c.PushingNext1(t.Runtime, rt.StringValue(strings.Repeat(string(ls), n))), nil
 	}
 	s := []byte(ls)
+	if len(s) == 0 && len(sep) == 0 {
+		// n empty strings separated by empty strings: nothing to build, and
+		// the loop below would run n times without consuming any resource.
+		return c.PushingNext1(t.Runtime, rt.StringValue("")), nil
+	}
 	builder := strings.Builder{}
 	sz1 := n * len(s)
 	sz2 := (n - 1) * len(sep)
